@@ -33,5 +33,12 @@ def convert_dep5(obj: ClickObj) -> None:
     text = toml_from_dep5(
         cast(ReuseDep5, project.global_licensing).dep5_copyright
     )
-    (project.root / "REUSE.toml").write_text(text)
+    destination = project.root / "REUSE.toml"
+    # A REUSE.toml that the project does not use as such (a dangling symbolic
+    # link, say) must not be written through or replaced.
+    if destination.is_symlink() or destination.exists():
+        raise click.UsageError(
+            _("'{path}' already exists.").format(path=destination)
+        )
+    destination.write_text(text, encoding="utf-8")
     (project.root / ".reuse/dep5").unlink()
